@@ -101,13 +101,18 @@ impl Scenario for RegistryScn {
         let many = self.group == "vaults-many";
         // "pools-ibc": a plain denom and two ibc voucher denoms whose 64-digit hashes differ only in letter case
         // (bank denoms are case sensitive, so they are different assets)
-        let ibc = self.group == "pools-ibc";
-        const IBC_LOWER: &str = "ibc/27394fb092d2eccd56123c74f36e4c1f926001ceada9ca97ea622b25f41e5eb2";
-        const IBC_UPPER: &str = "ibc/27394FB092D2ECCD56123C74F36E4C1F926001CEADA9CA97EA622B25F41E5EB2";
+        // "pools-long": a plain denom and two token-factory denoms of the same creator (a 66-character contract address): both
+        // are longer than 64 bytes and share their first 64 bytes
+        let ibc = self.group == "pools-ibc" || self.group == "pools-long";
+        let (ibc_lower, ibc_upper): (&str, &str) = if self.group == "pools-long" {
+            ("factory/migaloo1436kxs0w2es6xlqpp9rd35e3d0cjnw4sv8j3a7483sgks29jqwgsnfqdky4/uusdc", "factory/migaloo1436kxs0w2es6xlqpp9rd35e3d0cjnw4sv8j3a7483sgks29jqwgsnfqdky4/uusdt")
+        } else {
+            ("ibc/27394fb092d2eccd56123c74f36e4c1f926001ceada9ca97ea622b25f41e5eb2", "ibc/27394FB092D2ECCD56123C74F36E4C1F926001CEADA9CA97EA622B25F41E5EB2")
+        };
         let n_native = if many { 0 } else { (self.n_assets + 1) / 2 };
         let mut nd: Vec<(&str, u8)> = natives.iter().take(n_native).enumerate().map(|(i, d)| (*d, 6 + i as u8)).collect();
         if ibc {
-            nd = vec![("uaa", 6), (IBC_LOWER, 6), (IBC_UPPER, 8)];
+            nd = vec![("uaa", 6), (ibc_lower, 6), (ibc_upper, 8)];
         }
         let hub = deploy_pool_hub(w, &nd);
         let mut assets: Vec<AssetInfo> = vec![];
@@ -117,7 +122,7 @@ impl Scenario for RegistryScn {
                 // more registered children than one default page (10) of the factories' listings holds
                 assets.push(native(&format!("uvault{}", (b'a' + i as u8) as char)));
             } else if ibc {
-                assets.push(native(["uaa", IBC_LOWER, IBC_UPPER][i]));
+                assets.push(native(["uaa", ibc_lower, ibc_upper][i]));
             } else if i % 2 == 0 {
                 assets.push(native(natives[i / 2]));
             } else {
@@ -192,7 +197,7 @@ impl Scenario for RegistryScn {
         let mut v = vec![];
         let n = self.n_assets;
         match self.group.as_str() {
-            "pools-ibc" => {
+            "pools-ibc" | "pools-long" => {
                 for (a, bb) in [(0usize, 1usize), (0, 2), (1, 0), (2, 0), (1, 2)] {
                     v.push(RegAct::CreatePair { a, b: bb });
                     v.push(RegAct::RemovePair { a, b: bb });
